@@ -6,7 +6,7 @@ out=/verif/seeded/$id$suf
 [ -d $wt ] || { echo "no worktree $wt"; exit 2; }
 mkdir -p $out
 cd $wt
-git diff > $out/patch.diff
+git diff --text > $out/patch.diff
 demos=$(git ls-files --others --exclude-standard | grep -v SEEDED.md)
 [ -s $out/patch.diff ] || { echo "EMPTY PATCH"; exit 2; }
 echo "patch: $(git diff --stat | tail -1)"; echo "demo files: $demos"
